@@ -22,6 +22,25 @@ import (
 type Stats struct {
 	C       map[string]int64 `json:"counters"`
 	MaxLimb uint64           `json:"max_limb"`
+	// Cov holds coverage bitsets (merged by OR): which (position, digit) pairs of
+	// the scalar recodings were exercised by checked scalar multiplications.
+	Cov map[string][]byte `json:"cov,omitempty"`
+}
+
+// Cover sets bit i of the named coverage set of size n.
+func (s *Stats) Cover(name string, n, i int) {
+	if i < 0 || i >= n {
+		return
+	}
+	if s.Cov == nil {
+		s.Cov = map[string][]byte{}
+	}
+	b := s.Cov[name]
+	if b == nil {
+		b = make([]byte, (n+7)/8)
+		s.Cov[name] = b
+	}
+	b[i/8] |= 1 << (i % 8)
 }
 
 func NewStats() *Stats                 { return &Stats{C: map[string]int64{}} }
@@ -33,6 +52,17 @@ func (s *Stats) Merge(o *Stats) {
 	}
 	if o.MaxLimb > s.MaxLimb {
 		s.MaxLimb = o.MaxLimb
+	}
+	for k, b := range o.Cov {
+		if s.Cov == nil {
+			s.Cov = map[string][]byte{}
+		}
+		if s.Cov[k] == nil {
+			s.Cov[k] = make([]byte, len(b))
+		}
+		for i := range b {
+			s.Cov[k][i] |= b[i]
+		}
 	}
 }
 
@@ -971,6 +1001,7 @@ func (r *Run) oracleC01(op *OpDesc, c *Call, pre, post *Snap) *Violation {
 	}
 	want := ref.MultiMul(ks, ps)
 	st.Inc("oracle/C01")
+	r.recodingCoverage(op, ks)
 	r.ev("C01")
 	// receiver class reach probes
 	rc := "used"
@@ -1512,3 +1543,57 @@ func sortedKeys(m map[string]int64) []string {
 // ValueDigestPoint is the representation-independent description of a point
 // (exported for the task scheduler's sequential-equivalence oracle).
 func ValueDigestPoint(raw alpha.PointRaw) string { return valueDigestPoint(raw) }
+
+
+// recodingCoverage records which (position, digit) pairs of the scalar
+// recodings a checked scalar multiplication went through. The recodings are
+// recomputed here from the integer value of the scalar (signed radix 16 with
+// digits in [-8, 8); width-w non-adjacent form), not taken from the library.
+func (r *Run) recodingCoverage(op *OpDesc, ks []*big.Int) {
+	st := r.Stats
+	radix16 := func(k *big.Int, name string) {
+		carry := 0
+		for i := 0; i < 64; i++ {
+			d := int(new(big.Int).And(new(big.Int).Rsh(k, uint(4*i)), big.NewInt(15)).Int64()) + carry
+			carry = 0
+			if i < 63 && d >= 8 {
+				d -= 16
+				carry = 1
+			}
+			st.Cover(name, 64*17, i*17+(d+8))
+		}
+	}
+	naf := func(k *big.Int, w uint, name string) {
+		x := new(big.Int).Set(k)
+		width := int64(1) << w
+		for pos := 0; x.Sign() > 0 && pos < 256; pos++ {
+			if x.Bit(0) == 1 {
+				d := new(big.Int).And(x, big.NewInt(width-1)).Int64()
+				if d >= width/2 {
+					d -= width
+				}
+				x.Sub(x, big.NewInt(d))
+				// odd digit d in (-width/2, width/2): index by (d + width/2) / 2... use d+width/2
+				st.Cover(name, 256*int(width), pos*int(width)+int(d+width/2))
+			}
+			x.Rsh(x, 1)
+		}
+	}
+	switch op.Name {
+	case "Point.ScalarBaseMult":
+		radix16(ks[0], "C01/ScalarBaseMult/radix16(pos,digit)")
+	case "Point.ScalarMult":
+		radix16(ks[0], "C01/ScalarMult/radix16(pos,digit)")
+	case "Point.MultiScalarMult":
+		for _, k := range ks {
+			radix16(k, "C01/MultiScalarMult/radix16(pos,digit)")
+		}
+	case "Point.VarTimeDoubleScalarBaseMult":
+		naf(ks[0], 5, "C01/VarTimeDoubleScalarBaseMult/naf5(pos,digit)")
+		naf(ks[1], 8, "C01/VarTimeDoubleScalarBaseMult/naf8(pos,digit)")
+	case "Point.VarTimeMultiScalarMult":
+		for _, k := range ks {
+			naf(k, 5, "C01/VarTimeMultiScalarMult/naf5(pos,digit)")
+		}
+	}
+}
